@@ -80,7 +80,7 @@ struct Handler {
 }
 
 void dsim_scenario() {
-    int adapter = dsim::choose(13);
+    int adapter = dsim::choose(15);
     int nops = 1 + dsim::choose(2);           // consecutive operations on a reused adapter / storage
     int outcome[2], timing[2]; long val[2];
     for (int i = 0; i < nops; i++) { outcome[i] = dsim::choose(3); timing[i] = dsim::choose(3); val[i] = SRC + (dsim::choose(6) == 5 ? 13 : i + 1); }
@@ -137,6 +137,24 @@ void dsim_scenario() {
                 out.sync();
                 classify(i, [&] { return out.value(); });
                 if (exp_outcome == O_VALUE) exp_val = 99;
+                break; }
+            case 13: case 14: {   // callback_await on a future<void>: await_result<void> is read through get(), operator bool and operator!
+                Source *s = &src;
+                cocls::promise<void> vp; std::thread vthr;
+                auto res = [s](cocls::promise<void> &q) { if (s->outcome == O_VALUE) q(); else if (s->outcome == O_EXC) q(vs::make_err(s->val)); else q(cocls::drop); };
+                auto vwork = [&]() -> cocls::future<void> {
+                    return [&](cocls::promise<void> p) {
+                        if (s->timing == T_BEFORE) res(p); else if (s->timing == T_LATER) vp = std::move(p); else vthr = std::thread([res, q = std::move(p)]() mutable { res(q); });
+                    }; };
+                auto vcb = [i, v = val[i]](cocls::await_result<void> r) {
+                    bool ok = static_cast<bool>(r);
+                    if (ok == !r) dsim::fail("C18.wrong_outcome", "await_result<void>: operator bool and operator! agree (%d)", (int)ok);
+                    classify(i, [&] { r.get(); if (!ok) dsim::fail("C18.wrong_outcome", "await_result<void>::get() returned although the result is not valid"); return v; });
+                };
+                if (adapter == 13) cocls::callback_await<cocls::future<void>>(vcb, vwork);
+                else cocls::callback_await_alloc<CountingStorage, cocls::future<void>>(cstor, vcb, vwork);
+                if (vp) res(vp);
+                if (vthr.joinable()) vthr.join();
                 break; }
             case 12: {  // callback_await_alloc on a stack block (the way scheduler::start uses it): the block outlives the operation
                 cocls::stack_storage sstor(stack_state);
